@@ -173,6 +173,11 @@ func (verifConn) SetWriteDeadline(t time.Time) error { return nil }
 // reports -1: write postconditions as  s := vSpawned(); vEnsures(s < 0 || s == s0+1).
 func vSpawned() int { return -1 }
 
+// vTrusted marks the rest of the current path of a contract harness as NOT verified (the
+// contract's postconditions are still used at call sites): the case is reported as an
+// assumption in the evidence of every check that relies on the contract.
+func vTrusted(why string) {}
+
 // vModifiesWire declares that the target may send frames.
 func vModifiesWire() {}
 
